@@ -88,6 +88,9 @@ type helper struct {
 	file   *ast.File
 	single ast.Expr // body is `return E`
 	nres   int
+	// litOnly: the body has defer / recover / goto, so it cannot be spliced into a caller's statement list; it can still
+	// become the body of a function literal (go h(x), defer h(x), h passed as a value)
+	litOnly bool
 }
 
 type normaliser struct {
@@ -100,7 +103,9 @@ type normaliser struct {
 	// per file being rewritten
 	pk   *packages.Package
 	file *ast.File
-	// helpers whose declaration may go when no reference is left
+	cur  *ast.FuncDecl // the function whose body is being rewritten
+	// anyHelper: helperOf also answers for literal-only helpers
+	anyHelper bool
 }
 
 // Normalise expands unknown helpers (see the comment at the top). It returns notes for the evidence.
@@ -251,20 +256,20 @@ func (nz *normaliser) eligible(pk *packages.Package, file *ast.File, fd *ast.Fun
 		}
 		// methods that may satisfy an interface are dispatched dynamically elsewhere; expanding the static calls is still correct
 	}
-	bad := false
+	bad, litOnly := false, false
 	ast.Inspect(fd.Body, func(n ast.Node) bool {
 		switch x := n.(type) {
 		case *ast.FuncLit:
 			return false // its own returns/defers are its own
 		case *ast.DeferStmt:
-			bad = true
+			litOnly = true
 		case *ast.BranchStmt:
 			if x.Tok == token.GOTO {
-				bad = true
+				litOnly = true
 			}
 		case *ast.CallExpr:
 			if id, ok := x.Fun.(*ast.Ident); ok && id.Name == "recover" {
-				bad = true
+				litOnly = true
 			}
 		case *ast.Ident:
 			if pk.TypesInfo.Uses[x] == obj {
@@ -276,8 +281,8 @@ func (nz *normaliser) eligible(pk *packages.Package, file *ast.File, fd *ast.Fun
 	if bad {
 		return nil
 	}
-	h := &helper{obj: obj, decl: fd, pk: pk, file: file, nres: sig.Results().Len()}
-	if len(fd.Body.List) == 1 && h.nres == 1 {
+	h := &helper{obj: obj, decl: fd, pk: pk, file: file, nres: sig.Results().Len(), litOnly: litOnly}
+	if !litOnly && len(fd.Body.List) == 1 && h.nres == 1 {
 		if r, ok := fd.Body.List[0].(*ast.ReturnStmt); ok && len(r.Results) == 1 {
 			hasLit := false
 			ast.Inspect(r.Results[0], func(n ast.Node) bool {
@@ -545,10 +550,17 @@ func (nz *normaliser) helperOf(info *types.Info, call *ast.CallExpr) *helper {
 		return nil
 	}
 	h := nz.helpers[fn.Origin()]
-	if h == nil || h.pk.Types != fn.Pkg() {
+	if h == nil || h.pk.Types != fn.Pkg() || (h.litOnly && !nz.anyHelper) {
 		return nil
 	}
 	return h
+}
+
+// helperOfAny also returns helpers that can only become literal bodies.
+func (nz *normaliser) helperOfAny(info *types.Info, call *ast.CallExpr) *helper {
+	nz.anyHelper = true
+	defer func() { nz.anyHelper = false }()
+	return nz.helperOf(info, call)
 }
 
 func (nz *normaliser) rewriteAll() {
@@ -569,6 +581,7 @@ func (nz *normaliser) rewriteAll() {
 						continue // its body is expanded where it is called
 					}
 				}
+				nz.cur = fd
 				nz.wrapValues(fd.Body)
 				nz.block(fd.Body)
 				nz.exprs(fd.Body)
@@ -1221,57 +1234,98 @@ func countReturns(n ast.Node) int {
 	return c
 }
 
-// wrapGoDefer: go h(a, b)  →  go func(p1 T1, p2 T2) { h(p1, p2) }(a, b); the inner call is expanded in the next round.
+// wrapGoDefer: go h(a, b) / defer h(a, b)  →  go func(p1 T1, p2 T2) { <body of h> }(a, b). An argument that is a local
+// variable which is never reassigned in the calling function (and whose parameter h does not modify) is captured
+// instead of passed: `go c.run(ctx, req, rel)` becomes `go func() { … req … rel … }()` again, the closure it was before it
+// was given a name. (Capturing instead of copying is the same thing exactly when the variable does not change.)
 func (nz *normaliser) wrapGoDefer(call *ast.CallExpr) *ast.CallExpr {
 	info := nz.pk.TypesInfo
-	h := nz.helperOf(info, call)
-	if h == nil {
+	h := nz.helperOfAny(info, call)
+	if h == nil || h.nres != 0 {
 		return nil
 	}
-	if !nz.freeOK(h, h.decl.Type, nz.pk, nz.file, call.Pos()) {
+	if !nz.freeOK(h, h.decl.Body, nz.pk, nz.file, call.Pos()) {
 		return nil
+	}
+	bs, ok := nz.bindings(h, info, call)
+	if !ok {
+		return nil
+	}
+	hinfo := h.pk.TypesInfo
+	// which identifiers of the body are which parameter
+	var marks []*binding
+	ast.Inspect(h.decl.Body, func(n ast.Node) bool {
+		if id, ok := n.(*ast.Ident); ok {
+			var hit *binding
+			for i := range bs {
+				if bs[i].v != nil && hinfo.Uses[id] == bs[i].v {
+					hit = &bs[i]
+				}
+			}
+			marks = append(marks, hit)
+		}
+		return true
+	})
+	body := cloneNode(h.decl.Body)
+	uses := map[*binding][]*ast.Ident{}
+	i := 0
+	ast.Inspect(body, func(n ast.Node) bool {
+		if id, ok := n.(*ast.Ident); ok {
+			if marks[i] != nil {
+				uses[marks[i]] = append(uses[marks[i]], id)
+			}
+			i++
+		}
+		return true
+	})
+	immutable := func(id *ast.Ident) bool {
+		v, isVar := info.Uses[id].(*types.Var)
+		if !isVar || v.IsField() || v.Parent() == nil || v.Pkg() == nil || v.Parent() == v.Pkg().Scope() || nz.cur == nil {
+			return false
+		}
+		n := 0
+		for _, w := range Writes(nz.cur.Body, true) {
+			if wid, ok := ast.Unparen(w.LHS).(*ast.Ident); ok && (info.Uses[wid] == types.Object(v) || info.Defs[wid] == types.Object(v)) {
+				n++
+			}
+		}
+		addr := false
+		ast.Inspect(nz.cur.Body, func(x ast.Node) bool {
+			if u, ok := x.(*ast.UnaryExpr); ok && u.Op == token.AND {
+				if uid, ok := ast.Unparen(u.X).(*ast.Ident); ok && info.Uses[uid] == types.Object(v) {
+					addr = true
+				}
+			}
+			return true
+		})
+		return n <= 1 && !addr
 	}
 	ft := &ast.FuncType{Params: &ast.FieldList{}}
-	var outer, inner []ast.Expr
-	fun := call.Fun
-	if h.decl.Recv != nil {
-		sel, ok := ast.Unparen(call.Fun).(*ast.SelectorExpr)
-		if !ok {
+	var args []ast.Expr
+	for k := range bs {
+		b := &bs[k]
+		if b.v == nil || b.name == "_" {
+			if !nz.pure(info, b.arg) {
+				return nil
+			}
+			continue
+		}
+		if id, ok := ast.Unparen(b.arg).(*ast.Ident); ok && immutable(id) && types.Identical(info.TypeOf(id), b.v.Type()) && !mutated(hinfo, h.decl.Body, b.v) &&
+			(id.Name == b.name || (!declaresName(hinfo, h.decl.Body, id.Name) && !mentionsFreeName(hinfo, h.decl.Body, id.Name))) {
+			for _, u := range uses[b] {
+				u.Name = id.Name
+			}
+			continue
+		}
+		if !nz.freeOK(h, b.typ, nz.pk, nz.file, call.Pos()) {
 			return nil
 		}
-		if s, ok := info.Selections[sel]; !ok || s.Kind() != types.MethodVal || len(s.Index()) != 1 || !types.Identical(info.TypeOf(sel.X), h.obj.Type().(*types.Signature).Recv().Type()) {
-			return nil
-		}
-		if !nz.freeOK(h, h.decl.Recv.List[0].Type, nz.pk, nz.file, call.Pos()) {
-			return nil
-		}
-		ft.Params.List = append(ft.Params.List, &ast.Field{Names: []*ast.Ident{ast.NewIdent("recvZq")}, Type: cloneNode(h.decl.Recv.List[0].Type)})
-		outer = append(outer, sel.X)
-		fun = &ast.SelectorExpr{X: ast.NewIdent("recvZq"), Sel: ast.NewIdent(sel.Sel.Name)}
+		ft.Params.List = append(ft.Params.List, &ast.Field{Names: []*ast.Ident{ast.NewIdent(b.name)}, Type: cloneNode(b.typ)})
+		args = append(args, b.arg)
 	}
-	k := 0
-	for _, fld := range h.decl.Type.Params.List {
-		n := len(fld.Names)
-		if n == 0 {
-			n = 1
-		}
-		for j := 0; j < n; j++ {
-			k++
-			name := fmt.Sprintf("argZq%d", k)
-			ft.Params.List = append(ft.Params.List, &ast.Field{Names: []*ast.Ident{ast.NewIdent(name)}, Type: cloneNode(fld.Type)})
-			inner = append(inner, ast.NewIdent(name))
-		}
-	}
-	if k != len(call.Args) {
-		return nil
-	}
-	outer = append(outer, call.Args...)
 	nz.changed[nz.file] = true
-	nz.notes = append(nz.notes, fmt.Sprintf("go/defer of %s wrapped in a literal", funcName(h.obj)))
-	return &ast.CallExpr{
-		Fun:  &ast.FuncLit{Type: ft, Body: &ast.BlockStmt{List: []ast.Stmt{&ast.ExprStmt{X: &ast.CallExpr{Fun: fun, Args: inner}}}}},
-		Args: outer,
-	}
+	nz.notes = append(nz.notes, fmt.Sprintf("go/defer of %s turned into a literal", funcName(h.obj)))
+	return &ast.CallExpr{Fun: &ast.FuncLit{Type: ft, Body: body}, Args: args}
 }
 
 // expandAssignNew: `tmp := h(args)` for a fresh tmp.
